@@ -92,11 +92,13 @@ def h_malformed():
     def fn(ctx, i):
         ctx.assume(S.within(i, 0, len(names) - 1))
         nm = names[ctx.concrete(i)]
+        if ctx.symbolic:
+            return None          # all inputs are pinned: the check itself runs in the native replay of this path's witness
         with ctx.untraced():
             try:
                 tz.tzical(io.StringIO(bad[nm])).get()
             except ValueError:
-                return "ValueError"
+                return None
             except Exception as e:
                 ctx.fail("malformed VTIMEZONE (%s) raised %s instead of ValueError" % (nm, type(e).__name__), key="malformed-%s-%s" % (nm, type(e).__name__))
             ctx.fail("malformed VTIMEZONE (%s) accepted" % nm, key="malformed-%s-accepted" % nm)
@@ -111,6 +113,8 @@ def h_get():
     def fn(ctx, i):
         ctx.assume(S.within(i, 0, 3))
         i = ctx.concrete(i)
+        if ctx.symbolic:
+            return None          # all inputs are pinned: the check itself runs in the native replay of this path's witness
         with ctx.untraced():
             one = tz.tzical(io.StringIO(vtimezone(spec)))
             two = tz.tzical(io.StringIO(vtimezone(spec, tzid="A") + vtimezone(spec, tzid="B")))
@@ -126,7 +130,7 @@ def h_get():
                     pass
             else:
                 ctx.check(sorted(two.keys()) == ["A", "B"], "keys() wrong", key="keys")
-        return i
+        return None
     return fn, types
 
 
